@@ -531,3 +531,216 @@ pub fn run_fieldkey(tier: &str, seed: u64) -> Sink {
     sink.s(json!({"c03_fieldkey": {"generated": n}}));
     sink
 }
+
+/// C03 / C10 — ring 2 for Model/EndToken.lean: random trivia (blank lines, indentation, comments) in front of the
+/// token that closes a block; the bytes between the last statement's line and the token must be the model's rendering.
+pub fn run_endtoken(tier: &str, seed: u64) -> Sink {
+    let n = if tier == "thorough" { 40000 } else { 6000 };
+    let texts = ["c", "c  ", " c\t", "", "-", "é "];
+    let btexts = ["c", "c\nd", " c \n\n d ", "", "]"];
+    // (`repeat … until` is not here: its `until` goes through fmt_symbol!, not through format_end_token)
+    let blocks: [(&str, &str, &str); 5] = [
+        ("do\n\tlocal aa = 0\n", "end", ""),
+        ("while cond do\n\tlocal aa = 0\n", "end", ""),
+        ("for kk in pairs(tt) do\n\tlocal aa = 0\n", "end", ""),
+        ("local function ff()\n\tlocal aa = 0\n", "end", ""),
+        ("if cond then\n\tlocal aa = 0\n", "end", ""),
+    ];
+    let parts = par_map(n, threads(), |i| {
+        let mut sink = Sink::default();
+        let mut r = Rng::new(seed.wrapping_mul(6151) ^ (i as u64) ^ 0xE4D);
+        let (head, closer, tail) = blocks[r.below(blocks.len())];
+        let mut src = String::from(head);
+        let len = r.below(7);
+        for _ in 0..len {
+            match r.below(6) {
+                0 | 1 => src.push('\n'),
+                2 => src.push_str(["  ", "\t", " \t "][r.below(3)]),
+                3 | 4 => {
+                    src.push_str("--");
+                    src.push_str(texts[r.below(texts.len())]);
+                    src.push('\n');
+                }
+                _ => {
+                    let t = btexts[r.below(btexts.len())];
+                    let lvl = r.below(3);
+                    if lvl == 0 && t.contains(']') {
+                        continue;
+                    }
+                    let eqs = "=".repeat(lvl);
+                    src.push_str(&format!("--[{}[{}]{}]", eqs, t, eqs));
+                    src.push_str(if r.chance(1, 2) { "\n" } else { " " });
+                }
+            }
+        }
+        src.push_str(closer);
+        src.push_str(tail);
+        src.push('\n');
+        let mut c = cfg();
+        c.syntax = LuaVersion::Lua51;
+        let crlf = r.chance(1, 3);
+        c.line_endings = if crlf { LineEndings::Windows } else { LineEndings::Unix };
+        if !parses(&src, c.syntax) {
+            return sink;
+        }
+        let toks = match crate::lexutil::tokens(&src, c.syntax) {
+            Some(t) => t,
+            None => return sink,
+        };
+        // leading trivia of the closing token: everything after the line of `local aa = 0`
+        let zi = match toks.iter().position(|t| matches!(t.token_type(), TokenType::Number { .. })) { Some(k) => k, None => return sink };
+        let mut k = zi + 1;
+        while k < toks.len() {
+            let is_nl = matches!(toks[k].token_type(), TokenType::Whitespace { characters } if characters.contains('\n'));
+            k += 1;
+            if is_nl {
+                break;
+            }
+        }
+        let ci = match (k..toks.len()).find(|&j| significant(&toks[j])) { Some(j) => j, None => return sink };
+        let items = triv_items(&toks[k..ci]);
+        if let Outcome::Ok(out) = fmt(&src, c, None, false) {
+            let eol = if crlf { "\r\n" } else { "\n" };
+            let stmt = format!("\tlocal aa = 0{}", eol);
+            let a = match out.find(&stmt) { Some(p) => p + stmt.len(), None => return sink };
+            let closing = format!("{}{}{}", closer, tail, eol);
+            if !out.ends_with(&closing) || out.len() - closing.len() < a {
+                sink.v("C03", "endtoken:closing-token-missing", json!({"input": src, "config": cfg_to_string(&c), "output": out}));
+                return sink;
+            }
+            let s = &out[a..out.len() - closing.len()];
+            sink.q(
+                format!("endtoken {} {} {}", if crlf { "crlf" } else { "lf" }, hex(b"\t"), items),
+                if s.is_empty() { "-".to_string() } else { hex(s.as_bytes()) },
+            );
+        }
+        sink
+    });
+    let mut sink = Sink::default();
+    for s in parts {
+        sink.merge(s);
+    }
+    sink.s(json!({"c03_endtoken": {"generated": n}}));
+    sink
+}
+
+/// C03 — ring 2 for Model/HangOp.lean `Punct`: a value list laid out one value per line (`return a, b`), with
+/// comments behind the first value, around its comma and in front of the second value; the bytes between the two
+/// values must be the model's rendering.
+pub fn run_punct(tier: &str, seed: u64) -> Sink {
+    let n = if tier == "thorough" { 30000 } else { 5000 };
+    let ctexts = ["c", "c  ", "", "é"];
+    let btexts = ["b", "b\nb", ""];
+    let parts = par_map(n, threads(), |i| {
+        let mut sink = Sink::default();
+        let mut r = Rng::new(seed.wrapping_mul(8111) ^ (i as u64) ^ 0x9C7);
+        let comment = |r: &mut Rng| -> (String, bool) {
+            if r.chance(1, 2) {
+                (format!("--{}", ctexts[r.below(ctexts.len())]), true)
+            } else {
+                let lvl = r.below(2);
+                let eqs = "=".repeat(lvl);
+                (format!("--[{}[{}]{}]", eqs, btexts[r.below(btexts.len())], eqs), false)
+            }
+        };
+        let head = if r.chance(1, 2) { "return " } else { "local aa, bb = " };
+        let mut src = String::from(head);
+        src.push_str("first_value_name");
+        let mut count = 0;
+        let mut open = true;
+        let mut same_line = |src: &mut String, r: &mut Rng, open: &mut bool, count: &mut usize| {
+            for _ in 0..r.below(3) {
+                if !*open {
+                    break;
+                }
+                let (c, is_line) = comment(r);
+                src.push(' ');
+                src.push_str(&c);
+                *count += 1;
+                if is_line {
+                    *open = false;
+                }
+            }
+        };
+        let own_lines = |src: &mut String, r: &mut Rng, count: &mut usize| {
+            for _ in 0..r.below(3) {
+                let (c, is_line) = comment(r);
+                src.push('\t');
+                src.push_str(&c);
+                src.push_str(if is_line || r.chance(2, 3) { "\n" } else { " " });
+                *count += 1;
+            }
+        };
+        same_line(&mut src, &mut r, &mut open, &mut count);
+        if !open || r.chance(1, 3) {
+            src.push('\n');
+            own_lines(&mut src, &mut r, &mut count);
+            src.push('\t');
+        }
+        src.push(',');
+        let mut open = true;
+        same_line(&mut src, &mut r, &mut open, &mut count);
+        if !open || r.chance(1, 2) {
+            src.push('\n');
+            own_lines(&mut src, &mut r, &mut count);
+            src.push('\t');
+        } else {
+            src.push(' ');
+        }
+        src.push_str("second_value_name\n");
+        if count == 0 {
+            return sink;
+        }
+        let mut c = cfg();
+        c.syntax = LuaVersion::Lua51;
+        let crlf = r.chance(1, 3);
+        c.line_endings = if crlf { LineEndings::Windows } else { LineEndings::Unix };
+        if !parses(&src, c.syntax) {
+            return sink;
+        }
+        let toks = match crate::lexutil::tokens(&src, c.syntax) {
+            Some(t) => t,
+            None => return sink,
+        };
+        let is_ident = |t: &Token, name: &str| matches!(t.token_type(), TokenType::Identifier { identifier } if identifier.as_str() == name);
+        let li = match toks.iter().position(|t| is_ident(t, "first_value_name")) { Some(k) => k, None => return sink };
+        let ri = match toks.iter().position(|t| is_ident(t, "second_value_name")) { Some(k) => k, None => return sink };
+        let pi = match (li + 1..ri).find(|&k| significant(&toks[k])) { Some(k) => k, None => return sink };
+        let line_end = |from: usize, to: usize| -> usize {
+            let mut k = from;
+            while k < to {
+                let is_nl = matches!(toks[k].token_type(), TokenType::Whitespace { characters } if characters.contains('\n'));
+                k += 1;
+                if is_nl {
+                    break;
+                }
+            }
+            k.min(to)
+        };
+        let vt_to = line_end(li + 1, pi);
+        let v_trail = triv_items(&toks[li + 1..vt_to]);
+        let p_lead = triv_items(&toks[vt_to..pi]);
+        let pt_to = line_end(pi + 1, ri);
+        let p_trail = triv_items(&toks[pi + 1..pt_to]);
+        let n_lead = triv_items(&toks[pt_to..ri]);
+        if let Outcome::Ok(out) = fmt(&src, c, None, false) {
+            let a = match out.find("first_value_name") { Some(p) => p + "first_value_name".len(), None => return sink };
+            let b = match out.rfind("second_value_name") { Some(p) => p, None => return sink };
+            if a > b {
+                return sink;
+            }
+            sink.q(
+                // the comma takes the shape of the first value: the block's for `return`, the hanging one for an assignment
+                format!("punct {} {} {} {} {} {} {}", if crlf { "crlf" } else { "lf" }, if head == "return " { "-".to_string() } else { hex(b"\t") }, hex(b"\t"), v_trail, p_lead, p_trail, n_lead),
+                hex(out[a..b].as_bytes()),
+            );
+        }
+        sink
+    });
+    let mut sink = Sink::default();
+    for s in parts {
+        sink.merge(s);
+    }
+    sink.s(json!({"c03_punct": {"generated": n}}));
+    sink
+}
